@@ -354,6 +354,7 @@ print(json.dumps(sorted(seen)))
 # ----------------------------------------------------------------------------- main pieces
 def gen_unicode():
     cat_name(sre_c.CATEGORY_DIGIT)
+    cat_name(sre_c.CATEGORY_SPACE)
     lines = ["import ProductMD.Model.Str", "/-! GENERATED by tools/translate.py – do not edit. Code-point ranges CPython's `re` uses",
              "for its character categories on this interpreter (surrogates excluded). -/", "namespace PM.Gen", ""]
     for cat, name in _CAT_NAMES.items():
